@@ -67,7 +67,8 @@ def confirm(pid, k):
         return 1
     # the demonstration: set-up lines (cp / mkdir) and the demo's cargo command, taken from RUN.md;
     # the order "without the change, then with it" is imposed here
-    lines = [re.sub(r'^\s*\$?\s*', '', l) for l in run.splitlines()]
+    run_joined = re.sub(r'\\\n\s*', ' ', run)
+    lines = [re.sub(r'^\s*\$?\s*', '', l) for l in run_joined.splitlines()]
     lines = [l for l in lines if l and not l.startswith('#')]
     setup = []
     for l in lines:
